@@ -191,7 +191,9 @@ Definition res_eqb (a b : res) : bool :=
 
 (** ---------- cases ---------- *)
 (** one step of a history: an operation (with the pin id drawn, whether the context was already
-    cancelled, and the observed result class) or a query with the observed answer *)
+    cancelled, and the observed result class) or a query with the observed answer.  A call with
+    an already cancelled context must change nothing, whatever it returns (Update(c, c) of a
+    recursively pinned c returns nil before it looks at the context). *)
 Inductive event :=
 | EOp (o : op) (newid : N) (cancelled : bool) (r : res)
 | EQuery (q : query) (a : ans).
@@ -202,7 +204,7 @@ Fixpoint run_model (fl : flags) (g : dag) (p : pst) (evs : list event) : bool :=
   match evs with
   | [] => true
   | EOp o newid cancelled r :: rest =>
-      if cancelled then res_eqb RErr r && run_model fl g p rest
+      if cancelled then run_model fl g p rest
       else let (r', p') := exec fl newid p o in res_eqb r' r && run_model fl g p' rest
   | EQuery q a :: rest => agree (answer fl g (view_store (st p)) q) a && run_model fl g p rest
   end.
@@ -211,7 +213,7 @@ Fixpoint run_spec (g : dag) (rs : list prec) (evs : list event) : bool :=
   match evs with
   | [] => true
   | EOp o newid cancelled r :: rest =>
-      if cancelled then res_eqb RErr r && run_spec g rs rest
+      if cancelled then run_spec g rs rest
       else let (r', rs') := a_exec newid rs o in res_eqb r' r && run_spec g rs' rest
   | EQuery q a :: rest => agree (answer flags_fixed g (view_pins rs) q) a && run_spec g rs rest
   end.
